@@ -142,6 +142,40 @@ def genComboSpecCases (tier : String) (seed : Nat) : Array Case := Id.run do
       out := out.push { c with note := Json.mkObj [("spec", (spec : Json))] }
   pure out
 
+/-- brace mode, documented notation: operator trees over nested statements `Sym{…}` whose
+    components may hold operators of their own; with and without the component symbol in front.
+    The expected tree is written down directly (one leaf per nested statement, operators as
+    written), independently of the model. -/
+def braceLeafPool : Array String := #["A(a) I(b)", "A(x) I((p [AND] q)) Bdir(z)", "I(do) Cex((m [OR] (n [XOR] o)))",
+  "A(officer) D(must) I(report) Bdir((this [XOR] that))", "A(operator) I(violates) Bdir(rules)", "I(act)"]
+
+partial def genBraceTree (sym : String) (depth : Nat) (top : Bool) (rootSl : String) : G (String × String) := do
+  let k ← below 10
+  if !top && (depth = 0 || k < 4) then
+    let body ← pickA braceLeafPool
+    let t := sym ++ "{" ++ body ++ "}"
+    pure (t, "L<" ++ t ++ ">")
+  else
+    let (l, sl) ← genBraceTree sym (depth - 1) false ""
+    let (r, sr) ← genBraceTree sym (depth - 1) false ""
+    let o ← pickA #["AND", "OR", "XOR"]
+    pure ("{" ++ l ++ " [" ++ o ++ "] " ++ r ++ "}", "C[" ++ o ++ "|" ++ rootSl ++ "|](" ++ sl ++ ")(" ++ sr ++ ")")
+
+def genComboBraceSpecCases (tier : String) (seed : Nat) : Array Case := Id.run do
+  let n := if tier = "thorough" then 600 else 80
+  let mut out : Array Case := #[]
+  let mut rng : Rng := ⟨UInt64.ofNat (seed * 69069 + 5)⟩
+  for i in [0:n] do
+    let sym := #["Cac", "Bdir", "Cex", "Bind,p", "A,p", "O"].getD (i % 6) "Cac"
+    let withSym := i % 2 = 0
+    -- with the symbol in front, it becomes the shared left text of the root
+    let ((t, spec), r1) := (genBraceTree sym (1 + i % 3) true (if withSym then sym else "")) rng
+    rng := r1
+    let text := if withSym then sym ++ t else t
+    let c := comboCase s!"combo-b{i}" "spec" true (i % 4 = 1) text
+    out := out.push { c with note := Json.mkObj [("spec", (spec : Json))] }
+  pure out
+
 /-- all strings over a small token alphabet up to a length (exhaustive stream) -/
 def comboAllStrings (toks : List String) : Nat → List String
   | 0 => [""]
@@ -175,7 +209,7 @@ def genComboCases (tier : String) (seed : Nat) : Array Case := Id.run do
     let tag := (if brace then "brace-" else "paren-") ++ (if kind = 0 then "tokens" else if kind = 3 then "mutated"
       else if kind = 4 then "documented" else "rendered")
     out := out.push (comboCase s!"combo-{i}" tag brace nested t)
-  out := out ++ genComboSpecCases tier seed
+  out := out ++ genComboSpecCases tier seed ++ genComboBraceSpecCases tier seed
   -- exhaustive: every string of up to 5 (quick) / 6 (thorough) tokens over a 6-token alphabet
   let len := if tier = "thorough" then 6 else 5
   let toks := ["(", ")", "a", " ", "[AND]", "[OR]"]
@@ -187,6 +221,10 @@ def genComboCases (tier : String) (seed : Nat) : Array Case := Id.run do
         out := out.push (comboCase s!"combo-x{j}" s!"exhaustive-{l}" false (j % 3 = 0) t)
         j := j + 1
   pure out
+
+/-- the part of the stream that concerns brace mode (C02's check) -/
+def genComboBraceCases (tier : String) (seed : Nat) : Array Case :=
+  (genComboCases tier seed).filter fun c => (c.args.getObjValAs? Bool "brace").toOption.getD false
 
 def judgeCombo (c : Case) (o : ObsLine) : Verdict :=
   let g := fun (k : String) (j : Json) => (j.getObjValAs? String k).toOption.getD ""
